@@ -17,6 +17,17 @@ def required(xml_elem, attribute):
     return value
 
 
+def flag(xml_elem, attribute):
+    """ A boolean attribute: true, false, 1, 0 (any case, blanks around it); absent means false, anything else is refused. """
+    text = xml_elem.get(attribute)
+    if text is None:
+        return False
+    word = text.strip().lower()
+    if word not in ("true", "false", "1", "0"):
+        raise IsarError("<%s> element: '%s' of '%s' is neither true nor false" % (xml_elem.tag, text, attribute))
+    return word in ("true", "1")
+
+
 def extract_operator_args(string_, pos):
     brackets = 0
     open_pos = pos
@@ -146,8 +157,7 @@ def make_enum(xml_elem):
 def make_struct_members(xml_elem, dynamic_array=False):
     xml_elem_name = required(xml_elem, "name")
     xml_elem_type = required(xml_elem, "type")
-    optional = xml_elem.get("optional")
-    optional = bool(optional) and optional.strip().lower() not in ("false", "0")
+    optional = flag(xml_elem, "optional")
     dimension = xml_elem.find("dimension")
     comment = get_docstr(xml_elem)
 
@@ -158,6 +168,8 @@ def make_struct_members(xml_elem, dynamic_array=False):
             size = dimension.get("size", None)
             size2 = dimension.get("size2", None)
             size, size2 = (expr and expand_operators(expr) for expr in (size, size2))
+            if size2 and not size:
+                raise IsarError("<dimension> element of '%s' has 'size2' without 'size'" % xml_elem_name)
             if size2:
                 def factor(expr):
                     return expr if re.match(r"\w+\Z", str(expr)) else "({})".format(expr)
@@ -173,7 +185,7 @@ def make_struct_members(xml_elem, dynamic_array=False):
                 sizer_name = "numOf" + xml_elem_name[:1].upper() + xml_elem_name[1:]
                 yield model.StructMember(xml_elem_name, xml_elem_type, bound=sizer_name, docstring=comment)
 
-            elif dimension.get("isVariableSize", "false").strip().lower() not in ("false", "0"):
+            elif flag(dimension, "isVariableSize"):
                 type_ = dimension.get("variableSizeFieldType", "u32")
                 sizer_name = dimension.get("variableSizeFieldName", xml_elem_name + "_len")
                 yield model.StructMember(sizer_name, type_, docstring=comment)
@@ -199,6 +211,9 @@ def make_union(xml_elem):
     if len(xml_elem):
         members = []
         for member in xml_elem:
+            if member.find("dimension") is not None or flag(member, "optional"):
+                raise IsarError("member '%s' of union '%s' is an array or optional: an arm is neither"
+                                % (member.get("name"), xml_elem.get("name")))
             members.append(model.UnionMember(
                 required(member, "name"),
                 required(member, "type"),
